@@ -82,6 +82,16 @@ def configs(tier):
                 i += 1
                 c = dict(stack=stack, platform=plat, kind="sim", sink=sink, on_open=oo, on_close=oc)
                 out.append(c)
+    # open() failing AFTER the transport is up, with one specific exception class (raised by on_open), and a device that refuses
+    # the in-channel login (ScrapliAuthenticationFailed from channel_authenticate_ssh / _telnet)
+    for k, exc in enumerate(("ScrapliAuthenticationFailed", "ScrapliTimeout", "ScrapliConnectionError", "ScrapliPrivilegeError", "Exception",
+                             "ScrapliConnectionNotOpened", "OSError", "ValueError")):
+        for stack in ("sync", "async"):
+            out.append(dict(stack=stack, platform=(PLATFORMS + ["generic"])[(k + (stack == "async")) % 6], kind="sim", sink=sinks[(k + 1) % 4],
+                            on_open="raise:" + exc, on_close=("default", "none", "ok")[k % 3]))
+    out.append(dict(stack="sync", platform="cisco_iosxe", kind="sim", sink="path", on_open="default", on_close="default", tname="system", bypass=False, login="refuse"))
+    out.append(dict(stack="sync", platform="generic", kind="sim", sink="true", on_open="default", on_close="default", tname="telnet", bypass=False, login="refuse"))
+    out.append(dict(stack="async", platform="arista_eos", kind="sim", sink="path", on_open="default", on_close="default", tname="asynctelnet", bypass=False, login="refuse"))
     # a transport whose close() fails whenever it holds a session (PtyProcess.close(): "Could not terminate the child.")
     for stack, plat, sink, oo, oc in (("sync", "generic", "path", "default", "default"), ("async", "cisco_iosxe", "true", "default", "default"),
                                       ("sync", "juniper_junos", "path", "ok", "raise"), ("async", "generic", "path", "none", "none"),
@@ -105,6 +115,9 @@ def telnet_configs():
                                                  ("cisco_nxos", 12, False, "true", True)):
             out.append(dict(stack=stack, platform=plat, kind="faketelnet", sink=sink, on_open="default", on_close="default", neg=neg,
                             partial=partial, bypass=bypass, **({"timeout_ops": 2} if stack == "async" and not bypass else {})))
+        # the real Telnet transports against a device that refuses the login
+        out.append(dict(stack=stack, platform="cisco_iosxr", kind="faketelnet", sink="path", on_open="default", on_close="default", neg=3, partial=False,
+                        bypass=False, login="refuse", **({"timeout_ops": 2} if stack == "async" else {})))
     return out
 
 
@@ -113,7 +126,7 @@ def hook_word(case, which):
     h = case.get(which, "default")
     if h == "default":
         return "d:" + PLAT.get(case["platform"], "generic")
-    return h
+    return "raise" if h.startswith("raise:") else h
 
 
 def model_kind(case):
@@ -172,7 +185,10 @@ def compare(case, results, model):
     """correspondence on the property-relevant observables; returns None or a description of the first difference"""
     kind = case.get("kind", "sim")
     for i, (res, m) in enumerate(zip(results, model)):
-        if canon_out(res["out"], res["marks"]) != canon_out(m["out"], m["trace"]):
+        out = res["out"]
+        if res.get("injected_hook_exc") and out == res["injected_hook_exc"] and not (res["marks"] and res["marks"][-1] == "enter-raised"):
+            out = "HookError"       # whichever class the user hook was told to raise is, to the model, "what the hook raises"
+        if canon_out(out, res["marks"]) != canon_out(m["out"], m["trace"]):
             return f"op {i} outcome impl={res['out']} model={m['out']}"
         if res["marks"] != m["trace"]:
             return f"op {i} statements reached impl={'>'.join(res['marks'])} model={'>'.join(m['trace'])}"
@@ -430,7 +446,6 @@ def _watchdog(limit_s):
 
 def run(tier, seed):
     from harness import c11rig
-    _watchdog(900 if tier == "quick" else 3000)
     ck = Check(PID, tier, seed, level="proof")
     ck.rule = ("case = configuration (stack sync|asyncio x platform {5 core, generic} x channel_log sink {none, path, True, BytesIO} x "
                "on_open/on_close {platform default, user ok, user raises, None} x in-channel auth on/off) + well-formed history over "
@@ -462,6 +477,7 @@ def run(tier, seed):
     ck.prove("ScrapliProps.C11", lemma_files=["ScrapliProps/C11Lemmas.lean", "ScrapliModel/Lifecycle.lean", "ScrapliModel/LifecycleSyntax.lean"])
     if tier == "thorough":
         ck.leanchecker("ScrapliProps.C11")
+    _watchdog(900 if tier == "quick" else 3000)      # (started after the Lean build: waiting for the shared build lock is not a wedged rig)
     runner = Runner()
     batch = []
     t0 = time.time()
@@ -520,6 +536,8 @@ def run(tier, seed):
                 except c11rig.RigTrouble:
                     continue
                 evaluate(ck, runner, c, dry, batch, tags=("telnet-fake",))
+                if tc.get("login") == "refuse" and tier == "quick":
+                    continue      # (every refused asyncio login costs real 0.1 s sleeps: fault points of these only in the thorough tier)
                 for oi, (spec, res) in enumerate(zip(c["ops"], dry)):
                     pts = fault_points(spec, res, tier)
                     if tier == "quick":
